@@ -426,18 +426,7 @@ theorem PEq.setTimeLeft {a b : Periodic} (h : PEq a b) (t : Int) : a.setTimeLeft
     by_cases ht : t ≤ 0
     · simp only [ht, if_true]
     · simp only [ht, if_false]
-      cases aic with
-      | none => rfl
-      | some c =>
-        simp only
-        by_cases hc : c ≤ 0
-        · simp only [hc, if_true]
-        · simp only [hc, if_false]
   · rw [h']
-
-/-- the reachable schedulers of these classes: the pydantic constraints, and a running one is below `D` -/
-def LoopInv (D : Int) (per : Periodic) : Prop := per.WF ∧ (0 < per.timeLeft → per.count < D)
-instance (D : Int) (per : Periodic) : Decidable (LoopInv D per) := by unfold LoopInv; exact inferInstance
 
 theorem disable_wf (per : Periodic) (h : per.WF) : per.disable.WF := h
 
@@ -614,3 +603,83 @@ theorem loopCore_add (stop : Int → Bool) (emit : Int → Stack → Stack × RE
   exact ⟨hsplit.2, hsplit.1, kp⟩
 
 end Simaple.Comp.Mage
+
+namespace Simaple.Comp.Mage
+open Simaple.Entity Simaple.Comp
+
+theorem loopCore_dead (stop : Int → Bool) (emit : Int → Stack → Stack × REv) (D t : Int) (per : Periodic) (fs : Stack)
+    (hdead : per.timeLeft ≤ 0) :
+    loopCore stop emit D t per fs = (if D ≤ per.count then per.disable else per, fs, []) := by
+  simp only [loopCore, tickLoop_dead stop emit t.toNat per t fs hdead]
+
+/-- `loopCore` answers the same on equivalent schedulers -/
+theorem loopCore_peq (stop : Int → Bool) (emit : Int → Stack → Stack × REv) (D t : Int) (x y : Periodic) (fs : Stack)
+    (h : PEq x y) :
+    (loopCore stop emit D t x fs).2 = (loopCore stop emit D t y fs).2 ∧
+    PEq (loopCore stop emit D t x fs).1 (loopCore stop emit D t y fs).1 := by
+  rcases h.2.2 with ⟨hx, hy⟩ | he
+  · rw [loopCore_dead _ _ _ _ _ _ hx, loopCore_dead _ _ _ _ _ _ hy]
+    refine ⟨rfl, ?_, ?_, Or.inl ⟨?_, ?_⟩⟩
+    · split <;> split <;> exact h.1
+    · split <;> split <;> exact h.2.1
+    · split
+      · exact Int.le_refl 0
+      · exact hx
+    · split
+      · exact Int.le_refl 0
+      · exact hy
+  · rw [he]; exact ⟨rfl, PEq.refl _⟩
+
+theorem loopCore_allDamage (stop : Int → Bool) (emit : Int → Stack → Stack × REv)
+    (hem : ∀ c fs, isDamage (emit c fs).2 = true) (D t : Int) (per : Periodic) (fs : Stack) :
+    ∀ e ∈ (loopCore stop emit D t per fs).2.2, isDamage e = true :=
+  tickLoop_allDamage stop emit hem _ _ _ _ _
+
+theorem setTimeLeft_loopInv (per q : Periodic) (d D : Int) (hw : per.WF) (hD : 0 < D)
+    (h : per.setTimeLeft d = .ok q) : LoopInv D q := by
+  unfold Periodic.setTimeLeft at h
+  unfold Periodic.WF at hw
+  split at h
+  · simp at h
+  · cases hc : per.initialCounter with
+    | none =>
+      simp only [hc, Except.ok.injEq] at h
+      subst h
+      exact ⟨⟨hw.1, hw.1⟩, fun _ => hD⟩
+    | some c =>
+      simp only [hc] at h
+      split at h
+      · simp at h
+      · simp only [Except.ok.injEq] at h
+        subst h
+        exact ⟨⟨hw.1, by simp only; omega⟩, fun _ => hD⟩
+
+end Simaple.Comp.Mage
+
+namespace Simaple.Comp
+open Simaple.Entity Simaple.Comp.Mage
+
+/-! ### JupyterThunder -/
+def JupyterThunder.Equiv (x y : JupyterThunder.S) : Prop :=
+  x.frostStack = y.frostStack ∧ x.cooldown = y.cooldown ∧ PEq x.periodic y.periodic
+
+theorem JupyterThunder.elapse_eq (p : JupyterThunder.P) (t : Int) (s : JupyterThunder.S) :
+    JupyterThunder.elapse p t s =
+      let r := loopCore (fun c => decide (p.maxCount ≤ c)) (JupyterThunder.emit p) p.maxCount t s.periodic s.frostStack
+      ({ frostStack := r.2.1, cooldown := s.cooldown.elapse t, periodic := r.1 }, .elapsed t :: r.2.2) := rfl
+
+theorem JupyterThunder.stop_eq (p : JupyterThunder.P) :
+    ∀ c, (fun c => decide (p.maxCount ≤ c)) c = decide (p.maxCount - 1 < c) := by
+  intro c; simp only [decide_eq_decide]; omega
+
+/-! ### ThunderBreak -/
+def ThunderBreak.Equiv (x y : ThunderBreak.S) : Prop :=
+  x.frostStack = y.frostStack ∧ x.shock = y.shock ∧ x.cooldown = y.cooldown ∧ PEq x.periodic y.periodic
+
+theorem ThunderBreak.elapse_eq (p : ThunderBreak.P) (t : Int) (s : ThunderBreak.S) :
+    ThunderBreak.elapse p t s =
+      let r := loopCore (fun c => decide (p.maxCount < c)) (ThunderBreak.emit p s.shock.enabled) p.maxCount t
+        s.periodic s.frostStack
+      ({ frostStack := r.2.1, shock := s.shock, cooldown := s.cooldown.elapse t, periodic := r.1 }, .elapsed t :: r.2.2) := rfl
+
+end Simaple.Comp
